@@ -59,6 +59,10 @@ func randSchedule(r *Rng, ntasks int, gcPct int) simrt.Schedule {
 	switch r.Intn(10) {
 	case 0:
 		s = simrt.Schedule{Kind: simrt.StratExplicit, First: r.Intn(ntasks), Seed: r.U64()} // sequential
+	case 4, 5:
+		// concentrates preemptions next to shared-state accesses; an ordinary
+		// sparse walk when the repository has none
+		s = simrt.Schedule{Kind: simrt.StratHotWalk, Seed: r.U64(), HotDen: pick(r, []uint64{2, 3, 5}), WalkDen: pick(r, []uint64{256, 1024, 4096})}
 	case 1, 2, 3:
 		s = simrt.Schedule{Kind: simrt.StratPCT, Seed: r.U64(), Depth: 1 + r.Intn(3), Horizon: pick(r, []uint64{64, 256, 1024, 4096})}
 	default:
